@@ -4,12 +4,13 @@ import MinaProofs.Lemmas.AnimInv
 
 Model: `MinaModel/Animator.lean` (`set_state` with the repaired pause bookkeeping, fix ba53243).
 Generic in the number system. The one arithmetic fact needed is the *blend law* of each state's
-timeline (`BlendOK n`): started from `v` and evaluated at time 0 it reproduces `v`. That law is what
+timeline (`BlendOK P`, for the values `P` the animator can hold): started from `v` and evaluated at time 0 it reproduces `v`. That law is what
 "built-in easings, distinct keyframe positions per property, values representable in f32" buy: at ℚ it
 follows from C10.`start_value_until_delay` for every property with keyframes, and slots without
 keyframes are untouched (C08). It is preserved by `start_with`.
 
-`Good n a` = the animator invariant (`AnimInv`) + `n` value slots + every timeline obeys the blend law.
+`Good P a` = the animator invariant (`AnimInv`) + the values satisfy `P` + every timeline is `TlOK P`
+(blend law and closure of `P` under evaluation, after any sequence of `start_with`).
 -/
 namespace C04
 
@@ -19,10 +20,23 @@ variable {α : Type} [Num α]
 theorem set_same_state_noop (a : Animator α) : a.setState a.state = .ok a := by
   simp [Animator.setState]
 
-structure Good (n : Nat) (a : Animator α) : Prop where
+/-- a timeline is *well-behaved for values satisfying `P`* if, after any sequence of `start_with` calls
+with such values, it obeys the blend law and evaluating it keeps values in `P` -/
+def TlOK (P : List (Val α) → Prop) (m : Merged α) : Prop :=
+  ∀ ws : List (List (Val α)), (∀ w ∈ ws, P w) →
+    BlendOK P (ws.foldl (fun acc w => acc.startWith w) m) ∧
+    (∀ v t r, P v → (ws.foldl (fun acc w => acc.startWith w) m).update v t = .ok r → P r)
+
+theorem tlOK_startWith (P : List (Val α) → Prop) (m : Merged α) (w : List (Val α)) (hw : P w) (h : TlOK P m) :
+    TlOK P (m.startWith w) := by
+  intro ws hws
+  have := h (w :: ws) (by intro x hx; rcases List.mem_cons.1 hx with rfl | hx; exact hw; exact hws x hx)
+  simpa using this
+
+structure Good (P : List (Val α) → Prop) (a : Animator α) : Prop where
   inv : AnimInv a
-  len : a.values.length = n
-  blend : ∀ s tl, a.timeline? s = some tl → BlendOK n tl
+  pv : P a.values
+  ok : ∀ s tl, a.timeline? s = some tl → TlOK P tl
 
 theorem merged_startWith_last_wins (m : Merged α) (v w : List (Val α)) (hl : v.length = w.length) :
     (m.startWith v).startWith w = m.startWith w := by
@@ -31,13 +45,6 @@ theorem merged_startWith_last_wins (m : Merged α) (v w : List (Val α)) (hl : v
   apply List.map_congr_left
   intro tl _
   exact C09.startWith_last_wins tl v w hl
-
-/-- the blend law survives `start_with` -/
-theorem blendOK_startWith (n : Nat) (m : Merged α) (w : List (Val α)) (hw : w.length = n) (h : BlendOK n m) :
-    BlendOK n (m.startWith w) := by
-  intro v hv
-  rw [merged_startWith_last_wins m w v (by rw [hw, hv])]
-  exact h v hv
 
 theorem merged_update_length (m : Merged α) (tgt r : List (Val α)) (time : α) (h : m.update tgt time = .ok r) :
     r.length = tgt.length := by
@@ -53,15 +60,14 @@ theorem merged_update_length (m : Merged α) (tgt r : List (Val α)) (time : α)
     · simp at h
 
 /-- the freshly built animator is `Good` -/
-theorem good_initial (n : Nat) (timelines : List (Option (Merged α))) (s0 : Nat) (v0 : List (Val α))
-    (hlen : v0.length = n)
-    (hblend : ∀ m, some m ∈ timelines → BlendOK n m) : Good n (Animator.new timelines s0 v0) := by
-  have base_tl : ∀ s tl, (⟨timelines, s0, v0, none, 0⟩ : Animator α).timeline? s = some tl → BlendOK n tl := by
+theorem good_initial (P : List (Val α) → Prop) (timelines : List (Option (Merged α))) (s0 : Nat) (v0 : List (Val α))
+    (hP : P v0) (hok : ∀ m, some m ∈ timelines → TlOK P m) : Good P (Animator.new timelines s0 v0) := by
+  have base_tl : ∀ s tl, (⟨timelines, s0, v0, none, 0⟩ : Animator α).timeline? s = some tl → TlOK P tl := by
     intro s tl h
-    exact hblend tl (C08.timeline?_mem _ s tl h)
+    exact hok tl (C08.timeline?_mem _ s tl h)
   obtain ⟨b1, b2, b3, b4, b5, b6⟩ := blendNext_spec (⟨timelines, s0, v0, none, 0⟩ : Animator α) s0
   unfold Animator.new
-  refine ⟨⟨?_, ?_⟩, by rw [b1]; exact hlen, ?_⟩
+  refine ⟨⟨?_, ?_⟩, by rw [b1]; exact hP, ?_⟩
   · intro tl htl
     rw [b2] at htl
     rw [b6] at htl
@@ -72,7 +78,7 @@ theorem good_initial (n : Nat) (timelines : List (Option (Merged α))) (s0 : Nat
       simp only [Option.map_some, Option.some.injEq] at htl
       subst htl
       rw [b1, b4]
-      exact base_tl s0 tl0 h0 v0 hlen
+      exact (base_tl s0 tl0 h0 [] (by simp)).1 v0 hP
   · intro ps pos hp; rw [b3] at hp; simp at hp
   · intro s tl htl
     by_cases hs : s = s0
@@ -84,24 +90,24 @@ theorem good_initial (n : Nat) (timelines : List (Option (Merged α))) (s0 : Nat
         rw [h0] at htl
         simp only [Option.map_some, Option.some.injEq] at htl
         subst htl
-        exact blendOK_startWith n tl0 v0 hlen (base_tl s tl0 h0)
+        exact tlOK_startWith P tl0 v0 hP (base_tl s tl0 h0)
     · rw [b5 s hs] at htl
       exact base_tl s tl htl
 
 /-- **No jump.** `set_state` leaves `current_values` exactly as they were — in every `Good` animator,
 i.e. after any history (see `good_run`) — and the animator stays `Good`. -/
-theorem set_state_no_jump (n : Nat) (a a' : Animator α) (s : Nat) (hg : Good n a) (h : a.setState s = .ok a') :
-    a'.values = a.values ∧ Good n a' := by
-  obtain ⟨hv, hinv, htls⟩ := setState_spec a a' s hg.inv n hg.len hg.blend h
-  refine ⟨hv, hinv, by rw [hv]; exact hg.len, ?_⟩
+theorem set_state_no_jump (P : List (Val α) → Prop) (a a' : Animator α) (s : Nat) (hg : Good P a) (h : a.setState s = .ok a') :
+    a'.values = a.values ∧ Good P a' := by
+  obtain ⟨hv, hinv, htls⟩ := setState_spec a a' s hg.inv P hg.pv (fun s tl htl => (hg.ok s tl htl [] (by simp)).1) h
+  refine ⟨hv, hinv, by rw [hv]; exact hg.pv, ?_⟩
   intro s' tl' htl'
   obtain ⟨tl, htl, hcase⟩ := htls s' tl' htl'
   rcases hcase with rfl | rfl
-  · exact hg.blend s' tl' htl
-  · exact blendOK_startWith n tl a.values hg.len (hg.blend s' tl htl)
+  · exact hg.ok s' tl' htl
+  · exact tlOK_startWith P tl a.values hg.pv (hg.ok s' tl htl)
 
-theorem good_advanceNs (n : Nat) (a a' : Animator α) (ns : Nat) (hg : Good n a) (h : a.advanceNs ns = .ok a') :
-    Good n a' := by
+theorem good_advanceNs (P : List (Val α) → Prop) (a a' : Animator α) (ns : Nat) (hg : Good P a) (h : a.advanceNs ns = .ok a') :
+    Good P a' := by
   have hinv := inv_advanceNs a a' ns hg.inv h
   unfold Animator.advanceNs at h
   split at h
@@ -111,43 +117,64 @@ theorem good_advanceNs (n : Nat) (a a' : Animator α) (ns : Nat) (hg : Good n a)
     · cases htl : (({ a with stateNs := a.stateNs + ns } : Animator α).timeline? a.state) with
       | none =>
         have : ({ a with stateNs := a.stateNs + ns } : Animator α).timeline? ({ a with stateNs := a.stateNs + ns } : Animator α).state = none := htl
-        rw [this] at h5; rw [h5]; exact hg.len
+        rw [this] at h5; rw [h5]; exact hg.pv
       | some tl =>
         have : ({ a with stateNs := a.stateNs + ns } : Animator α).timeline? ({ a with stateNs := a.stateNs + ns } : Animator α).state = some tl := htl
         rw [this] at h5
-        rw [merged_update_length tl _ _ _ h5]; exact hg.len
+        exact (hg.ok a.state tl htl [] (by simp)).2 _ _ _ hg.pv h5
     · intro s tl htl
-      apply hg.blend s tl
+      apply hg.ok s tl
       unfold Animator.timeline? at htl ⊢; rw [h1] at htl; exact htl
 
-theorem good_step (n : Nat) (a a' : Animator α) (op : AnimOp α) (hg : Good n a) (h : a.step op = .ok a') : Good n a' := by
+theorem good_step (P : List (Val α) → Prop) (a a' : Animator α) (op : AnimOp α) (hg : Good P a) (h : a.step op = .ok a') : Good P a' := by
   cases op with
-  | advanceNs ns => exact good_advanceNs n a a' ns hg h
+  | advanceNs ns => exact good_advanceNs P a a' ns hg h
   | advance secs =>
     simp only [Animator.step, Animator.advance] at h
     split at h
-    · exact good_advanceNs n a a' _ hg h
+    · exact good_advanceNs P a a' _ hg h
     · simp at h
-  | setState s => exact (set_state_no_jump n a a' s hg h).2
+  | setState s => exact (set_state_no_jump P a a' s hg h).2
 
 /-- every animator reachable by any history of `advance`/`set_state` is `Good` -/
-theorem good_run (n : Nat) (a a' : Animator α) (ops : List (AnimOp α)) (hg : Good n a) (h : a.run ops = .ok a') :
-    Good n a' := by
+theorem good_run (P : List (Val α) → Prop) (a a' : Animator α) (ops : List (AnimOp α)) (hg : Good P a) (h : a.run ops = .ok a') :
+    Good P a' := by
   induction ops generalizing a with
   | nil => simp [Animator.run] at h; subst h; exact hg
   | cons op ops ih =>
     simp only [Animator.run] at h
     split at h
-    · rename_i a1 h1; exact ih a1 (good_step n a a1 op hg h1) h
+    · rename_i a1 h1; exact ih a1 (good_step P a a1 op hg h1) h
     · simp at h
 
 /-- **The property.** Whatever sequence of advances and state changes came before, calling `set_state`
 never changes `current_values` at the moment of the call. -/
-theorem no_jump_after_any_history (n : Nat) (timelines : List (Option (Merged α))) (s0 : Nat) (v0 : List (Val α))
-    (hlen : v0.length = n) (hblend : ∀ m, some m ∈ timelines → BlendOK n m)
+theorem no_jump_after_any_history (P : List (Val α) → Prop) (timelines : List (Option (Merged α))) (s0 : Nat) (v0 : List (Val α))
+    (hP : P v0) (hok : ∀ m, some m ∈ timelines → TlOK P m)
     (ops : List (AnimOp α)) (a a' : Animator α) (s : Nat)
     (hrun : (Animator.new timelines s0 v0).run ops = .ok a) (hset : a.setState s = .ok a') :
     a'.values = a.values :=
-  (set_state_no_jump n a a' s (good_run n _ a ops (good_initial n timelines s0 v0 hlen hblend) hrun) hset).1
+  (set_state_no_jump P a a' s (good_run P _ a ops (good_initial P timelines s0 v0 hP hok) hrun) hset).1
+
+/-- for `P` = "has `n` slots": a timeline that obeys the blend law is `TlOK` (the blend law survives
+`start_with` because the latest `start_with` replaces earlier ones; `update` keeps the number of slots) -/
+theorem tlOK_of_blend_law (n : Nat) (m : Merged α)
+    (h : BlendOK (fun v => v.length = n) m) : TlOK (fun v => v.length = n) m := by
+  intro ws hws
+  have hfold : ∀ (ws : List (List (Val α))) (m0 : Merged α), (∀ w ∈ ws, w.length = n) →
+      BlendOK (fun v => v.length = n) m0 → BlendOK (fun v => v.length = n) (ws.foldl (fun acc w => acc.startWith w) m0) := by
+    intro ws
+    induction ws with
+    | nil => intro m0 _ h0; exact h0
+    | cons w rest ih =>
+      intro m0 hw h0
+      simp only [List.foldl_cons]
+      apply ih _ (fun x hx => hw x (by simp [hx]))
+      intro v hv
+      rw [merged_startWith_last_wins m0 w v (by rw [hw w (by simp), hv])]
+      exact h0 v hv
+  refine ⟨hfold ws m hws h, ?_⟩
+  intro v t r hv hr
+  rw [merged_update_length _ _ _ _ hr]; exact hv
 
 end C04
